@@ -1,11 +1,15 @@
 """C10: any completion order of asynchronous metadata requests gives a correct result."""
 import vlib
-from props import asynclib as al, solverstream as ss
+from props import asynclib as al, solverstream as ss, enctie, tracecheck as tc
 
-THEOREMS = ["C10_once_checker", "C10_valid_oracle", "C10_reference"]
+THEOREMS = ["C10_once_checker", "C10_valid_oracle", "C10_reference", "C10_any_order_adds_facts",
+            "C10_any_order_complete", "C10_any_order_once", "C10_verdicts_agree"]
 CHECKER = ("coqc Props/C10.v + Print Assumptions; harness async_cases --kind c10: schedule-controlled executor (FIFO, LIFO, random, "
            "bounded depth-first enumeration of completion orders) -> per schedule: termination (deadlock detection without "
-           "timeouts), verdict = synchronous verdict, extracted o_valid on the solution, extracted onceb on the call history")
+           "timeouts), verdict = synchronous verdict, extracted o_valid on the solution, extracted onceb on the call history; harness "
+           "solve_cases under gated (FIFO/LIFO/random) and self-waking runtimes with hook log -> extracted enc_run follows the logged "
+           "completion order: clause database equal clause for clause, candidates/dependencies requests equal as multisets, nothing "
+           "pending at the end; same logs -> extracted trace checkers (hypotheses of C10_verdicts_agree)")
 
 
 def run(res, tier, seed, replay):
@@ -19,6 +23,35 @@ def run(res, tier, seed, replay):
         recs, hangs = al.run_async("c10", streams, seed + 73, extra)
     al.judge(recs)
     al.ref_for(recs)
+    # the encoder model under the logged completion order (theorems C10_any_order_*), and the trace checkers
+    if replay:
+        erecs = []
+    else:
+        estreams = [("conflict", 255, "gated:lifo", "debug", 150 * k), ("conflict", 255, "gated:random", "debug", 150 * k),
+                    ("small", 255, "gated:random", "debug", 150 * k), ("dense", 255, "gated:fifo", "debug", 60 * k),
+                    ("fanout", 88, "gated:random", "debug", 40 * k), ("small", 255, "yield", "debug", 150 * k),
+                    ("conflict", 127, "gated:random", "release", 100 * k)]
+        erecs, eh = ss.run_streams(estreams, seed + 79, dump=True)
+        for h in eh:
+            res.violation(f"hang-{h}", f"case {h} did not finish within the watchdog time (gated solve_cases)", {"hang": h})
+    enctie.annotate(erecs)
+    tc.annotate(erecs)
+    for r in erecs:
+        if "enc" not in r:
+            continue
+        res.count([ss.case_key(r["case"]), r["stream"], "enc"], r["enc"].get("n_db", 0) >= 6)
+        if not enctie.ok(r):
+            res.tie_break(f"encoder correspondence no longer checks under completion order {r['stream']}: the implementation's clause "
+                          f"database / candidates+dependencies requests differ from the model following the logged completion order, "
+                          f"or a future was still pending (theorems C10_any_order_*): {r['enc']}", enctie.replay(r))
+        t = r.get("trace")
+        kd = ss.outcome_kind(r["obs"]["outcome"])
+        if t and kd == "sat" and not (t.get("db") and t.get("run") and t.get("lenient")):
+            res.tie_break(f"trace inclusion no longer checks for a run under completion order {r['stream']} (hypothesis of "
+                          f"C10_verdicts_agree): {t}", tc.trace_replay(r))
+        if t and kd == "unsat" and not (t.get("db") and t.get("run") and t.get("unsat")):
+            res.tie_break(f"refutation certificate no longer checks for a run under completion order {r['stream']} (hypothesis of "
+                          f"C10_verdicts_agree): {t}", tc.trace_replay(r))
     nsched, maxpend = 0, 0
     for h in hangs:
         res.violation(f"hang-{h}", f"case {h} did not finish within the watchdog time", {"hang": h})
@@ -55,7 +88,7 @@ def run(res, tier, seed, replay):
     res.rule = ("every case is solved synchronously and under completion orders chosen by the schedule-controlled executor: FIFO, "
                 "LIFO, 3 random, and a bounded depth-first enumeration of the alternatives at every choice point; non-trivial = "
                 "case with >= 3 distinct schedules")
-    res.extra.update({"schedules_run": nsched, "max_simultaneously_pending": maxpend, "hangs": len(hangs)})
+    res.extra.update({"schedules_run": nsched, "max_simultaneously_pending": maxpend, "hangs": len(hangs)}, **enctie.stats(erecs))
     return res.finish(CHECKER, vlib.TRUSTED_BASE,
                       ["single-threaded executor; provider futures for get_candidates / get_dependencies are the schedule points "
                        "(filter/sort complete immediately)", "solutions may legitimately differ between schedules; verdict and validity are compared"])
